@@ -487,6 +487,7 @@ class FakeSocket:
             return 0
         # TODO: what is the interaction with expiry?
         self._server.dbs[db][key.key] = self._server.dbs[self._db_num][key.key]
+        self._server.dbs[db].notify_watch(key.key)
         key.value = None  # Causes deletion
         return 1
 
